@@ -471,6 +471,14 @@ fn judge<C: Probe>(var: Var, case: &Case, shot: &Shot, r: &Result<Result<(Result
                 }
             } else if shot.status.is_some() {
                 col.event("err_hostile_status");
+            } else if e == "RxTimeout" {
+                // not an error: the adapter tells the MAC that nothing was received although the
+                // chip signalled a reception whose packet fits the MAC's buffer
+                col.violation(
+                    &format!("{}|received-packet-reported-as-timeout|{}|len{}", base, hdr, if l < 16 { format!("={}", l) } else { lc.to_string() }),
+                    "the adapter reports RxTimeout (no error) for a received packet that fits the MAC's buffer: the MAC is not handed the bytes",
+                    detail(json!({"returned": "Ok(RxStatus::RxTimeout)"})),
+                );
             } else {
                 // allowed by the statement ("or fails with an error") but worth seeing in the evidence
                 col.event("err_although_it_fits");
